@@ -45,8 +45,9 @@ Step ==
                                     \* (an invalid trace, id 0, gets no span ids of its own from an OpenTelemetry tracer)
                                     /\ (e.item.span # hstart[e.k - 1].span \/ (Traced /\ hstart[e.k - 1].tr = "0")))
                             THEN {"nested request does not carry the handler's trace id / sampling with a fresh span"} ELSE {})
-               /\ bad07' = IF e.k > 1 /\ (e.k - 1) \in DOMAIN hstart /\ e.item.rel # hstart[e.k - 1].rel
-                             THEN bad07 \cup {"nested call does not carry the handler's deadline"} ELSE bad07
+               \* (nrel: the deadline the handler gave its nested call - its own, or a later one)
+               /\ bad07' = IF e.k > 1 /\ (e.k - 1) \in DOMAIN hstart /\ e.item.rel # hstart[e.k - 1].nrel
+                             THEN bad07 \cup {"nested call does not carry the deadline its caller passed"} ELSE bad07
                /\ UNCHANGED <<start, hstart, abandoned, bad04>>
           [] e.ev = "LinkSent" /\ e.item.kind = "cancel" ->
                /\ bad18' = IF e.k \in DOMAIN req /\ req[e.k].id = e.item.id
@@ -54,7 +55,7 @@ Step ==
                              THEN bad18 \cup {"cancellation does not carry its request's trace context"} ELSE bad18
                /\ UNCHANGED <<start, req, hstart, abandoned, bad04, bad07>>
           [] e.ev = "ChainHandlerStart" ->
-               /\ hstart' = (e.k :> [dl |-> e.dl, rel |-> e.rel, tr |-> e.tr, span |-> e.span, sampled |-> e.sampled]) @@ hstart
+               /\ hstart' = (e.k :> [dl |-> e.dl, rel |-> e.rel, nrel |-> e.nrel, tr |-> e.tr, span |-> e.span, sampled |-> e.sampled]) @@ hstart
                /\ bad18' = bad18
                     \* a request without a trace (trace id 0: an untraced caller) starts a new trace at a traced server
                     \cup (IF e.k \in DOMAIN req /\ ~(Traced /\ req[e.k].tr = "0")
@@ -67,7 +68,10 @@ Step ==
                \* deadlines are compared relative to the head call's deadline (rel = deadline - head deadline, in ms):
                \* deadlines years away do not fit the specification's integers
                /\ bad07' = bad07
-                    \cup (IF e.rel >= 0 /\ e.rel <= SumTo(start.delays, e.k) THEN {}
+                    \* relative to the deadline the previous hop passed (the head's for hop 1): not earlier, later by at most this hop's transit
+                    \cup (LET b == IF e.k > 1 /\ (e.k - 1) \in DOMAIN hstart THEN hstart[e.k - 1].nrel ELSE 0
+                               hi == IF e.k > 1 /\ (e.k - 1) \in DOMAIN hstart THEN b + start.delays[e.k] ELSE SumTo(start.delays, e.k) IN
+                          IF e.rel >= b /\ e.rel <= hi THEN {}
                           ELSE {"handler's deadline is earlier than the caller's or later than it plus accumulated transit"})
                     \cup (IF Traced /\ "cur" \in DOMAIN e /\ e.cur.rel # e.rel
                             THEN {"context::current() inside the handler does not report the handler's deadline"} ELSE {})
@@ -91,6 +95,9 @@ Verdict_C04 == Report("Inv_C04chain", bad04 = {}, bad04)
 Stuck == bad04 \cap {"a handler or the head call is still alive at quiescence"}
 Verdict_C02 == Report("Inv_C02chain", Stuck = {}, Stuck)
 Verdict_C07 == Report("Inv_C07chain", bad07 = {}, bad07)
+(* C05 seen from the wire: a call is transmitted with the deadline its caller chose, so it cannot be failed before it *)
+Early == bad07 \cap {"nested call does not carry the deadline its caller passed"}
+Verdict_C05 == Report("Inv_C05chain", Early = {}, Early)
 Verdict_C18 == Report("Inv_C18chain", bad18 = {}, bad18)
 Verdict_All == Verdict_C04 /\ Verdict_C07 /\ Verdict_C18
 Accepted == l = Len(Rec) + 1 => PrintT(<<"ACCEPTED", Len(Rec)>>)
